@@ -11,9 +11,15 @@ data effect on the reply and on the request object later plugins are shown. The 
 effects never feed back into the ledger, except that `adjustMounts/Env/Devices` clear the
 owner of a removed key only when an entry with that key is in the reply collected so far;
 that is decided on the state *before* the function runs. So each function is modelled as
-  `ops st rsp : List Op`         (what it asks of the ledger, in the order the Go code does)
+  `clears st rsp : List Item`    (the owners it clears)
+  `sets rsp : List Item`         (the items it claims, in the order the Go code does)
   `data st rsp : State`          (what it does to reply and view when no claim fails)
-and `runOps` interprets the operations. The 29 owner fields/maps of the Go `owners` struct
+and the ledger effect of a whole adjustment is "all clears, then all claims in order". That
+normal form is equivalent to the Go order (clears of one family interleaved with claims of
+earlier families) because a clear only ever concerns an item of its own family, within a
+family the Go code clears before it claims, and a lone annotation removal concerns a key that
+is not claimed in the same response; clears never fail, so the first failing claim is the
+same. The 29 owner fields/maps of the Go `owners` struct
 are one association list keyed by `(container id, Item)`; a scalar field holding `""` is an
 absent key.
 
@@ -45,11 +51,6 @@ inductive Err
   | selfUpdate (p : Plugin) (c : Cid)               -- update of the container being created
   deriving DecidableEq, Repr, Inhabited
 
-inductive Op
-  | clear (it : Item)
-  | claim (it : Item)
-  deriving DecidableEq, Repr, Inhabited
-
 def Owners.owner (o : Owners) (c : Cid) (it : Item) : Option Plugin := AList.lookup o (c, it)
 
 /-- `owners.claimX`: fails when the item already has an owner (whoever it is — the Go code
@@ -61,25 +62,25 @@ def claim (o : Owners) (c : Cid) (it : Item) (p : Plugin) : Except Err Owners :=
 
 def clear (o : Owners) (c : Cid) (it : Item) : Owners := AList.erase o (c, it)
 
-def runOp (c : Cid) (p : Plugin) (o : Owners) : Op → Except Err Owners
-  | .clear it => .ok (clear o c it)
-  | .claim it => claim o c it p
+def clearAll (o : Owners) (c : Cid) : List Item → Owners
+  | [] => o
+  | it :: rest => clearAll (clear o c it) c rest
 
-/-- Interpret ledger operations in order; stop at the first failing claim. -/
-def runOps (c : Cid) (p : Plugin) : Owners → List Op → Except Err Owners
+/-- claim the items in order; stop at the first failing claim -/
+def claimAll (c : Cid) (p : Plugin) : Owners → List Item → Except Err Owners
   | o, [] => .ok o
-  | o, op :: rest =>
-    match runOp c p o op with
-    | .ok o' => runOps c p o' rest
+  | o, it :: rest =>
+    match claim o c it p with
+    | .ok o' => claimAll c p o' rest
     | .error e => .error e
 
-/-- As `runOps`, but also returns the ledger reached when a claim fails: an update marked
+/-- As `claimAll`, but also returns the ledger reached when a claim fails: an update marked
     ignore-failure is dropped, yet the claims it made before the failing field stay. -/
-def runOpsPartial (c : Cid) (p : Plugin) : Owners → List Op → Owners × Option Err
+def claimAllPartial (c : Cid) (p : Plugin) : Owners → List Item → Owners × Option Err
   | o, [] => (o, none)
-  | o, op :: rest =>
-    match runOp c p o op with
-    | .ok o' => runOpsPartial c p o' rest
+  | o, it :: rest =>
+    match claim o c it p with
+    | .ok o' => claimAllPartial c p o' rest
     | .error e => (o, some e)
 
 structure Quirks where
@@ -144,13 +145,14 @@ def annDel (a : AList Str Str) : List Str :=
 def annSet (a : AList Str Str) : AList Str Str :=
   a.filter fun (k, _) => !(isMarked k).2
 
-def annOps (q : Quirks) (a : AList Str Str) : List Op :=
+/-- owners cleared by `adjustAnnotations`: every key marked for removal (before fix 2 only
+    those that are also set again in the same response) -/
+def annClears (q : Quirks) (a : AList Str Str) : List Item :=
   let del := annDel a
   let set := annSet a
-  let lone := del.filter fun k => !(set.any fun (k', _) => k' = k)
-  -- for a key both removed and set the Go code clears just before claiming
-  (set.flatMap fun (k, _) => (if del.contains k then [Op.clear (.annotation k)] else []) ++ [Op.claim (.annotation k)])
-  ++ (if q.annLoneKeeps then [] else lone.map fun k => Op.clear (.annotation k))
+  (if q.annLoneKeeps then del.filter fun k => set.any fun (k', _) => k' = k else del).map .annotation
+
+def annSets (a : AList Str Str) : List Item := (annSet a).map fun (k, _) => .annotation k
 
 def annData (q : Quirks) (st : State) (a : AList Str Str) : State :=
   let del := annDel a
@@ -178,11 +180,14 @@ def delKeys (keys : List Str) : List Str :=
 def modKeys (keys : List Str) : List Str :=
   keys.filter fun k => !(isMarked k).2
 
-def mountOps (st : State) (ms : List Mount) : List Op :=
+/-- the owner of a removed mount is cleared only when the reply collected so far holds an
+    entry for it -/
+def mountClears (st : State) (ms : List Mount) : List Item :=
   let del := delKeys (ms.map (·.destination))
-  let add := ms.filter fun m => !(isMarked m.destination).2
-  ((st.reply.mounts.filter fun m => del.contains m.destination).map fun m => Op.clear (.mount m.destination))
-  ++ add.map fun m => Op.claim (.mount m.destination)
+  (st.reply.mounts.filter fun m => del.contains m.destination).map fun m => .mount m.destination
+
+def mountSets (ms : List Mount) : List Item :=
+  (ms.filter fun m => !(isMarked m.destination).2).map fun m => .mount m.destination
 
 def mountData (st : State) (ms : List Mount) : State :=
   let del := delKeys (ms.map (·.destination))
@@ -196,11 +201,12 @@ def mountData (st : State) (ms : List Mount) : State :=
   { st with reply := { st.reply with mounts := reply1 ++ add ++ lone },
             view := { st.view with mounts := view1 ++ add } }
 
-def deviceOps (st : State) (ds : List Device) : List Op :=
+def deviceClears (st : State) (ds : List Device) : List Item :=
   let del := delKeys (ds.map (·.path))
-  let add := ds.filter fun d => !(isMarked d.path).2
-  ((st.reply.devices.filter fun d => del.contains d.path).map fun d => Op.clear (.device d.path))
-  ++ add.map fun d => Op.claim (.device d.path)
+  (st.reply.devices.filter fun d => del.contains d.path).map fun d => .device d.path
+
+def deviceSets (ds : List Device) : List Item :=
+  (ds.filter fun d => !(isMarked d.path).2).map fun d => .device d.path
 
 def deviceData (q : Quirks) (st : State) (ds : List Device) : State :=
   let del := delKeys (ds.map (·.path))
@@ -214,11 +220,12 @@ def deviceData (q : Quirks) (st : State) (ds : List Device) : State :=
   { st with reply := { st.reply with devices := reply1 ++ add ++ lone },
             view := { st.view with devices := view1 ++ add } }
 
-def envOps (st : State) (es : List KeyValue) : List Op :=
+def envClears (st : State) (es : List KeyValue) : List Item :=
   let del := delKeys (es.map (·.key))
-  let add := es.filter fun e => !(isMarked e.key).2
-  ((st.reply.env.filter fun e => del.contains e.key).map fun e => Op.clear (.env e.key))
-  ++ add.map fun e => Op.claim (.env e.key)
+  (st.reply.env.filter fun e => del.contains e.key).map fun e => .env e.key
+
+def envSets (es : List KeyValue) : List Item :=
+  (es.filter fun e => !(isMarked e.key).2).map fun e => .env e.key
 
 def envData (q : Quirks) (st : State) (es : List KeyValue) : State :=
   let del := delKeys (es.map (·.key))
@@ -234,10 +241,12 @@ def envData (q : Quirks) (st : State) (es : List KeyValue) : State :=
 
 /-! ### Args, hooks -/
 
-def argsOps (args : List Str) : List Op :=
+def argsClears (args : List Str) : List Item :=
   match args with
-  | [] => []
-  | a :: _ => (if a = [] then [Op.clear .args] else []) ++ [Op.claim .args]
+  | [] :: _ => [.args]
+  | _ => []
+
+def argsSets (args : List Str) : List Item := if args = [] then [] else [.args]
 
 def argsData (st : State) (args : List Str) : State :=
   match args with
@@ -261,37 +270,37 @@ def hooksData (st : State) (h : Option Hooks) : State :=
 
 /-! ### Resources -/
 
-def memOps (m : Memory) : List Op :=
-  (if m.limit.isSome then [Op.claim .memLimit] else []) ++
-  (if m.reservation.isSome then [Op.claim .memReservation] else []) ++
-  (if m.swap.isSome then [Op.claim .memSwap] else []) ++
-  (if m.kernel.isSome then [Op.claim .memKernel] else []) ++
-  (if m.kernelTcp.isSome then [Op.claim .memKernelTcp] else []) ++
-  (if m.swappiness.isSome then [Op.claim .memSwappiness] else []) ++
-  (if m.disableOomKiller.isSome then [Op.claim .memDisableOom] else []) ++
-  (if m.useHierarchy.isSome then [Op.claim .memUseHierarchy] else [])
+def memSets (m : Memory) : List Item :=
+  (if m.limit.isSome then [.memLimit] else []) ++
+  (if m.reservation.isSome then [.memReservation] else []) ++
+  (if m.swap.isSome then [.memSwap] else []) ++
+  (if m.kernel.isSome then [.memKernel] else []) ++
+  (if m.kernelTcp.isSome then [.memKernelTcp] else []) ++
+  (if m.swappiness.isSome then [.memSwappiness] else []) ++
+  (if m.disableOomKiller.isSome then [.memDisableOom] else []) ++
+  (if m.useHierarchy.isSome then [.memUseHierarchy] else [])
 
-def cpuOps (c : Cpu) : List Op :=
-  (if c.shares.isSome then [Op.claim .cpuShares] else []) ++
-  (if c.quota.isSome then [Op.claim .cpuQuota] else []) ++
-  (if c.period.isSome then [Op.claim .cpuPeriod] else []) ++
-  (if c.realtimeRuntime.isSome then [Op.claim .cpuRtRuntime] else []) ++
-  (if c.realtimePeriod.isSome then [Op.claim .cpuRtPeriod] else []) ++
-  (if c.cpus ≠ [] then [Op.claim .cpusetCpus] else []) ++
-  (if c.mems ≠ [] then [Op.claim .cpusetMems] else [])
+def cpuSets (c : Cpu) : List Item :=
+  (if c.shares.isSome then [.cpuShares] else []) ++
+  (if c.quota.isSome then [.cpuQuota] else []) ++
+  (if c.period.isSome then [.cpuPeriod] else []) ++
+  (if c.realtimeRuntime.isSome then [.cpuRtRuntime] else []) ++
+  (if c.realtimePeriod.isSome then [.cpuRtPeriod] else []) ++
+  (if c.cpus ≠ [] then [.cpusetCpus] else []) ++
+  (if c.mems ≠ [] then [.cpusetMems] else [])
 
-/-- ledger operations of `adjustResources` / `updateResources` for the plugin's resources
-    `r`; `pidsSet` says whether the pids branch is taken -/
-def resOpsWith (r : Resources) (pidsSet : Bool) : List Op :=
-  (match r.memory with | some m => memOps m | none => []) ++
-  (match r.cpu with | some c => cpuOps c | none => []) ++
-  (r.hugepages.map fun l => Op.claim (.hugepage l.pageSize)) ++
-  (r.unified.map fun (k, _) => Op.claim (.unified k)) ++
-  (if r.blockioClass.isSome then [Op.claim .blockio] else []) ++
-  (if r.rdtClass.isSome then [Op.claim .rdt] else []) ++
-  (if pidsSet then [Op.claim .pids] else [])
+/-- items claimed by `adjustResources` / `updateResources` for the plugin's resources `r`,
+    in the order of the Go code; `pidsSet` says whether the pids branch is taken -/
+def resSetsWith (r : Resources) (pidsSet : Bool) : List Item :=
+  (match r.memory with | some m => memSets m | none => []) ++
+  (match r.cpu with | some c => cpuSets c | none => []) ++
+  (r.hugepages.map fun l => .hugepage l.pageSize) ++
+  (r.unified.map fun (k, _) => .unified k) ++
+  (if r.blockioClass.isSome then [.blockio] else []) ++
+  (if r.rdtClass.isSome then [.rdt] else []) ++
+  (if pidsSet then [.pids] else [])
 
-def resOps (r : Resources) : List Op := resOpsWith r r.pids.isSome
+def resSets (r : Resources) : List Item := resSetsWith r r.pids.isSome
 
 def overlayMem (base m : Memory) : Memory :=
   { limit := m.limit.orElse fun _ => base.limit,
@@ -333,37 +342,42 @@ def resData (st : State) (r : Option Resources) : State :=
 
 /-! ### The remaining scalar and list items -/
 
-def cgroupsOps (path : Str) : List Op := if path = [] then [] else [Op.claim .cgroupsPath]
+def cgroupsSets (path : Str) : List Item := if path = [] then [] else [.cgroupsPath]
 def cgroupsData (st : State) (path : Str) : State :=
   if path = [] then st else
   { st with view := { st.view with cgroupsPath := path }, reply := { st.reply with cgroupsPath := path } }
 
-def oomOps (v : Option Int) : List Op := if v.isSome then [Op.claim .oomScoreAdj] else []
+def oomSets (v : Option Int) : List Item := if v.isSome then [.oomScoreAdj] else []
 def oomData (st : State) (v : Option Int) : State :=
   match v with
   | none => st
   | some x => { st with view := { st.view with oomScoreAdj := some x }, reply := { st.reply with oomScoreAdj := some x } }
 
-def rlimitOps (ls : List Rlimit) : List Op := ls.map fun l => Op.claim (.rlimit l.type)
+def rlimitSets (ls : List Rlimit) : List Item := ls.map fun l => .rlimit l.type
 def rlimitData (st : State) (ls : List Rlimit) : State :=
   { st with view := { st.view with rlimits := st.view.rlimits ++ ls },
             reply := { st.reply with rlimits := st.reply.rlimits ++ ls } }
 
-def cdiOps (ds : List Str) : List Op := ds.map fun d => Op.claim (.cdi d)
+def cdiSets (ds : List Str) : List Item := ds.map fun d => .cdi d
 def cdiData (st : State) (ds : List Str) : State :=
   { st with reply := { st.reply with cdiDevices := st.reply.cdiDevices ++ ds } }
 
 /-! ### `result.adjust` -/
 
-/-- all ledger operations of one plugin's adjustment, in the order of `adjust()`; the
+/-- every item one plugin's adjustment sets, in the order `adjust()` claims them; the
     `linux`-section families are skipped when the message has no `linux` section -/
-def adjustOps (q : Quirks) (st : State) (a : Adjustment) : List Op :=
-  annOps q a.annotations ++ mountOps st a.mounts ++ envOps st a.env ++ argsOps a.args ++
+def adjustSets (a : Adjustment) : List Item :=
+  annSets a.annotations ++ mountSets a.mounts ++ envSets a.env ++ argsSets a.args ++
   (if a.hasLinux then
-     deviceOps st a.devices ++ (match a.resources with | some r => resOps r | none => []) ++
-     cgroupsOps a.cgroupsPath ++ oomOps a.oomScoreAdj
+     deviceSets a.devices ++ (match a.resources with | some r => resSets r | none => []) ++
+     cgroupsSets a.cgroupsPath ++ oomSets a.oomScoreAdj
    else []) ++
-  rlimitOps a.rlimits ++ cdiOps a.cdiDevices
+  rlimitSets a.rlimits ++ cdiSets a.cdiDevices
+
+/-- every owner one plugin's adjustment clears -/
+def adjustClears (q : Quirks) (st : State) (a : Adjustment) : List Item :=
+  annClears q a.annotations ++ mountClears st a.mounts ++ envClears st a.env ++ argsClears a.args ++
+  (if a.hasLinux then deviceClears st a.devices else [])
 
 def adjustData (q : Quirks) (st : State) (a : Adjustment) : State :=
   let st := annData q st a.annotations
@@ -387,7 +401,7 @@ def adjust (q : Quirks) (st : State) (p : Plugin) (a : Option Adjustment) : Exce
   match a with
   | none => .ok st
   | some a =>
-    match runOps (cidOf st.kind) p st.owners (adjustOps q st a) with
+    match claimAll (cidOf st.kind) p (clearAll st.owners (cidOf st.kind) (adjustClears q st a)) (adjustSets a) with
     | .error e => .error e
     | .ok o => .ok { adjustData q st a with owners := o }
 
@@ -434,10 +448,10 @@ def updBase (st : State) (id : Cid) : Resources :=
 def updPids (q : Quirks) (base r : Resources) : Option Int :=
   if q.pidsFromCopy then base.pids else r.pids
 
-def updOps (q : Quirks) (st : State) (u : Update) : List Op :=
+def updSets (q : Quirks) (st : State) (u : Update) : List Item :=
   match u.resources with
   | none => []
-  | some r => resOpsWith r (updPids q (updBase st u.containerId) r).isSome
+  | some r => resSetsWith r (updPids q (updBase st u.containerId) r).isSome
 
 def setEntryRes (st : State) (id : Cid) (res : Resources) : State :=
   if isOwn st.kind id then
@@ -458,7 +472,7 @@ def update1 (q : Quirks) (st : State) (p : Plugin) (u : Update) : Except Err Sta
   match getUpdate q st p u with
   | .error e => .error e
   | .ok st1 =>
-    match runOpsPartial u.containerId p st1.owners (updOps q st1 u) with
+    match claimAllPartial u.containerId p st1.owners (updSets q st1 u) with
     | (o, none) => .ok { updData q st1 u with owners := o }
     | (o, some e) => if u.ignoreFailure then .ok { st1 with owners := o } else .error e
 
